@@ -260,7 +260,7 @@ class Sign(Machine):
         for edef in op["envs"]:
             s = Stream(edef["gen"], "env")
             desc = self._describe(host, s, edef["name"], edef["shape"], edef["features"], 0)
-            rel = edef["name"] + ".suit"
+            rel = self.odd_for(edef["name"]) + ".suit"
             o = world.create(host, desc, rel, fmt=op["fmt"], entry="cli")
             if o.ok:
                 model["slots"][edef["name"]] = {"rel": rel, "shape": edef["shape"]}
@@ -288,7 +288,7 @@ class Sign(Machine):
     def _out_rel(self, model, op):
         if op["out"] in model["slots"]:
             return model["slots"][op["out"]]["rel"]
-        return op["out"] + ".suit"
+        return self.odd_for(op["out"]) + ".suit"
 
     def _run_sign1(self, host, model, op, faults, in_rel, out_rel):
         ctx = self._context(host, op)
